@@ -152,6 +152,8 @@ fn send_op(job: &Job, sc: &Sc, idx: usize, op: Op, sender: u8, hook_count: &Arc<
 			)
 		}
 		Op::ContinueRaw => job.control(Control::ContinueTryGracefulRestart),
+		Op::SigVar(i) => job.signal(crate::scen::signal_table()[i as usize].0),
+		Op::GStopVar(i) => job.stop_with_signal(crate::scen::signal_table()[i as usize].0, g),
 		Op::RunAsync => job.run_async(move |ctx| {
 			let mut s = state_str(ctx);
 			if probes {
